@@ -157,8 +157,14 @@ func (w *World) selfTestCase(search *ssa.Function, solver *Solver, given interfa
 	setOriginDeep(doc, OrgDoc, map[interface{}]bool{})
 	out := in.CallFunction(search, []Value{ConcStr(c.Expression), doc}, nil).(TupleV)
 	errV := in.force(out[1])
-	if len(in.Trace) > 0 {
-		return fmt.Sprintf("concrete run made %d decisions", len(in.Trace))
+	nd := 0
+	for _, d := range in.Trace {
+		if d.Kind != "pool" { // whether a sync.Pool hands a pooled object out again is the runtime's choice
+			nd++
+		}
+	}
+	if nd > 0 {
+		return fmt.Sprintf("concrete run made %d decisions", nd)
 	}
 	if c.Error != "" {
 		if errV.T == nil {
